@@ -31,7 +31,7 @@ pub fn run(prop: &str, data: &[u8]) -> Option<(Value, Verdict)> {
             (json!(c), guarded(|| c02::check(&c)))
         }
         "C03" => {
-            let c = c03::Case { input: B(rest.to_vec()), cfg: h[0] & 127, source: h[1] % 3, piece: h[2] % 9, pend: h[3] % 3, ns: h[0] & 128 != 0 };
+            let c = c03::Case { input: B(rest.to_vec()), cfg: h[0] & 127, source: h[1] % 3, piece: h[2] % 9, pend: h[3] % 3, ns: h[0] & 128 != 0, skip: h[3] & 0xFC };
             (json!(c), guarded(|| c03::check(&c)))
         }
         "C04" => {
